@@ -14,7 +14,7 @@
    single-byte keys only: it is refuted for characters above 0x7f (known finding), and
    the timing of a lone ESC in vi keymaps cannot be replayed (known finding): DESIGN.md C18. *)
 From Model Require Import Base Uni Notation Utf8 Macro Dispatch.
-From Proofs Require Import NotationP MacroP FeedP.
+From Proofs Require Import NotationP MacroP FeedP UndoCtxP.
 Open Scope Z_scope.
 
 (* the recorded text survives its inputrc notation (the codec of C19) *)
@@ -71,6 +71,17 @@ Theorem C18_multibyte_keys_refuted :
   let s := mrun [MStart 0 [24; 40]; MKeys [19990]; MStop 0 [24; 41]; MCallLast [24; 101]] in
   m_fed s = [19990] /\ fed_bytes s = [22] /\ utf8_encode [19990] = [228; 184; 150].
 Proof. vm_compute. repeat split; reflexivity. Qed.
+
+(* refuted in the presence of undo (known finding undo-one-more-command), on the editor model
+   the sessions are compared with: the keys K = a C-_ C-k a typed after ONE command that
+   changes nothing (the end of the recording) and after TWO (the end of the recording, then
+   the replay command itself) end with different buffers - `x a` and `x aa`, what the real
+   sessions show - although the keys are the same: the save after every command refreshes
+   the cursor kept in the newest undo snapshot *)
+Theorem C18_one_more_command_changes_undo_refuted :
+  ed_result (undo_pre ++ [nop_cmd] ++ undo_K ++ [nop_cmd] ++ undo_K) = Some ([120; 32; 97], 3) /\
+  ed_result (undo_pre ++ [nop_cmd] ++ undo_K ++ [nop_cmd; nop_cmd] ++ undo_K) = Some ([120; 32; 97; 97], 4).
+Proof. exact one_more_command_changes_the_result. Qed.
 
 (* non-vacuity: C-x ( a C-a M-b ' \ C-x ) C-x e *)
 Example C18_example :
